@@ -814,8 +814,14 @@ class NetworkGraph(AbstractBaseIR):
                         else:
                             post_var = info['var']
                             post_op = info['op']
-                            expr_map[ev] = f'broadcast_post({post_var})'
-                            source_vars[post_var] = {'sources': [post_op], 'node': tnode, 'var': post_var}
+                            # local name of the target-side variable: must not shadow a source variable of the same
+                            # name that lives on another node
+                            post_name = post_var
+                            while post_name in source_vars and (source_vars[post_name]['node'] != tnode or
+                                                                source_vars[post_name]['var'] != post_var):
+                                post_name += '_post'
+                            expr_map[ev] = f'broadcast_post({post_name})'
+                            source_vars[post_name] = {'sources': [post_op], 'node': tnode, 'var': post_var}
 
                     if edge_de_sv_names:
                         # case 0c: dynamic edge
